@@ -1450,7 +1450,8 @@ def lp_small(case, kind):
     return dict(kind=kind, nseq=[int(v) for v in case['nseq']], nsub=[int(v) for v in case['nsub']],
                 F=(None if case.get('F') is None else [float(v) for v in case['F']]), cov=[list(c) for c in case['cov']],
                 thr=case.get('thr'), data_seed=int(case['data_seed']), data_kind=case.get('data_kind', 'dense'),
-                perms=[[int(k) for k in p] for p in case.get('perms', [])], sizes_kind=case.get('sizes_kind'), sim_seed=int(case.get('sim_seed', 1)))
+                perms=[[int(k) for k in p] for p in case.get('perms', [])], sizes_kind=case.get('sizes_kind'), sim_seed=int(case.get('sim_seed', 1)),
+                decoy_cov=([list(c) for c in case['decoy_cov']] if case.get('decoy_cov') else None))
 
 def check_lowpass_deep(chk, ctx, case):
     """deep coverage (every individual has >= 60 reads): the low-pass model function is plain projection of every population axis"""
@@ -1462,6 +1463,14 @@ def check_lowpass_deep(chk, ctx, case):
     nseq = inp['nseq']; nsub = inp['nsub']; d = len(nseq)
     Fs = [0.0] * d if inp['F'] is None else inp['F']
     key = ('lpdeep', d, case.get('sizes_kind'), inp['F'] is None, tuple(f > 0 for f in Fs), case.get('thr'), case.get('data_kind'))
+    if case.get('decoy_cov'):
+        # history: another low-pass function with the same populations, sizes, threshold and Fx but SHALLOW coverage is built and evaluated
+        # first; the projection the deep-coverage function applies must come from its own arguments
+        try:
+            lp_eval(ctx, LP, dict(case, cov=case['decoy_cov']))
+            chk.stat('lpdeep:after-decoy')
+        except Exception:
+            pass
     try:
         got, out, _ = lp_eval(ctx, LP, case)
     except Exception as e:
@@ -1490,9 +1499,10 @@ def check_lowpass_deep(chk, ctx, case):
         return
     err, j = worst(got, ref, keep)
     if err > RTOL * scale:
-        chk.fail('LowPass.lowpass_func:deep:entry', 'deep coverage, %d populations nseq=%r nsub=%r Fx=%r: entry %r of the low-pass model is %r; sampling %r of the sequenced '
+        chk.fail('LowPass.lowpass_func:deep:entry', 'deep coverage, %d populations nseq=%r nsub=%r Fx=%r%s: entry %r of the low-pass model is %r; sampling %r of the sequenced '
                  'chromosomes of every population without replacement gives %r (max error %.3g, scale %.3g)'
-                 % (d, nseq, nsub, inp['F'], list(j), float(got[j]), nsub, float(ref[j]), err, scale), inp)
+                 % (d, nseq, nsub, inp['F'], ' (built after a low-pass function with the same sizes and shallow coverage)' if case.get('decoy_cov') else '',
+                    list(j), float(got[j]), nsub, float(ref[j]), err, scale), inp)
     if not any(Fs):
         try:
             P = dadi.Spectrum(data.copy()).project(list(nsub))
@@ -1615,6 +1625,9 @@ def gen_lp_case(rng, tier, d, sizes_kind, F_kind, deep=True):
             else:
                 lo = int(rng.integers(60, 90)); cov.append(['band', lo, lo + int(rng.integers(1, 12))])
         thr = [1.0, None, 0.01][int(rng.integers(3))]
+        decoy = None
+        if rng.random() < 0.4:
+            decoy = [['list', 0.25, 0.25, 0.25, 0.25] if rng.random() < 0.5 else ['poisson', 2.0, 12] for _ in range(d)]
     else:
         cov = []
         for _ in range(d):
@@ -1625,7 +1638,7 @@ def gen_lp_case(rng, tier, d, sizes_kind, F_kind, deep=True):
                 D = int(rng.integers(2, 12)); cov.append(['list'] + [float(v) for v in (np.arange(1, D + 2) / float(np.arange(1, D + 2).sum()))])
             else:
                 cov.append(['point', int(rng.integers(3, 30))])
-        thr = 1.0
+        thr = 1.0; decoy = None
     perms = []
     if d >= 2:
         perms.append(list(range(d))[::-1])
@@ -1635,7 +1648,7 @@ def gen_lp_case(rng, tier, d, sizes_kind, F_kind, deep=True):
             perms.append(list(range(1, d)) + [0])               # a cyclic shift
     return dict(nseq=nseq, nsub=nsub, F=F, cov=cov, thr=thr, data_seed=int(rng.integers(1, 2 ** 31 - 1)),
                 data_kind=['dense', 'dense', 'neutral', 'sparse', 'one-entry'][int(rng.integers(5))], perms=perms, sizes_kind=sizes_kind,
-                sim_seed=int(rng.integers(1, 2 ** 31 - 1)))
+                sim_seed=int(rng.integers(1, 2 ** 31 - 1)), decoy_cov=decoy)
 
 def l3_lowpass_axes(chk, ctx, rng, reps):
     """1..4 populations x {all sizes equal, equal and nothing subsampled, sequenced sizes equal / subsample sizes not, two populations
